@@ -74,8 +74,10 @@ func (c *Conn) CloseRead(ctx context.Context) context.Context {
 	c.closeReadDone = make(chan struct{})
 	c.closeReadMu.Unlock()
 
+	verifEvent(c, "sync:spawn-closeRead", nil)
 	go func() {
 		defer close(c.closeReadDone)
+		defer verifEvent(c, "sync:signal-crd", nil)
 		defer cancel()
 		defer c.close()
 		_, _, err := c.Reader(ctx)
@@ -239,6 +241,7 @@ func (c *Conn) readFrameHeader(ctx context.Context) (header, error) {
 	case <-c.closed:
 		return header{}, net.ErrClosed
 	case c.readTimeout <- ctx:
+		verifEvent(c, "sync:arm-read-own", nil)
 	}
 
 	h, err := readFrameHeader(c.br, c.readHeaderBuf[:])
@@ -253,10 +256,12 @@ func (c *Conn) readFrameHeader(ctx context.Context) (header, error) {
 		}
 	}
 
+	verifEvent(c, "sync:io", nil)
 	select {
 	case <-c.closed:
 		return header{}, net.ErrClosed
 	case c.readTimeout <- context.Background():
+		verifEvent(c, "sync:arm-read-bg", nil)
 	}
 
 	return h, nil
@@ -267,6 +272,7 @@ func (c *Conn) readFramePayload(ctx context.Context, p []byte) (int, error) {
 	case <-c.closed:
 		return 0, net.ErrClosed
 	case c.readTimeout <- ctx:
+		verifEvent(c, "sync:arm-read-own", nil)
 	}
 
 	n, err := io.ReadFull(c.br, p)
@@ -281,10 +287,12 @@ func (c *Conn) readFramePayload(ctx context.Context, p []byte) (int, error) {
 		}
 	}
 
+	verifEvent(c, "sync:io", nil)
 	select {
 	case <-c.closed:
 		return n, net.ErrClosed
 	case c.readTimeout <- context.Background():
+		verifEvent(c, "sync:arm-read-bg", nil)
 	}
 
 	return n, err
@@ -346,6 +354,7 @@ func (c *Conn) handleControl(ctx context.Context, h header) (err error) {
 	// The connection is closed by readUnlock once the read call stack has unwound:
 	// the callers may still be using resources that close releases.
 	c.peerClosed = true
+	verifEvent(c, "sync:set-peerClosed", nil)
 	c.peerCloseErr = err
 	return err
 }
